@@ -47,3 +47,9 @@ def fill(claim, NA):
         "Trusted: z3; AST->EUF translator (refuses unsupported syntax); regex->z3 translation with ASCII categories; CrossHair for the E1 part where magnitudes are finite choices (no symbolic floats).",
         "AST->EUF/LRA and regex->SMT queries (z3) + CrossHair symbolic execution",
     )
+    claim(
+        "C13",
+        "The ASTs of Size.as_percentage_of and Layout.fit_to_screen (with the geometry constructors and operators inlined) are encoded as exact IEEE-754-in-LIA queries: for every value p/10^k (p < 10^6, k <= 3) in px/em/pt/c against 12 video dimensions the result is a percentage within 2^-30 of the exact one; for every double origin in the safe area and every double extent in [2^-7,128) or absent the fitted region stays inside 90%/95%, a missing extent reaches the edge and a fitting one is unchanged. Error paths (RelativizationError exactly when a needed dimension is missing), WebVTT never writing absolute units, and the printed two-decimal sums are checked by bounded symbolic execution.",
+        "Trusted: z3; AST->LIA translator incl. inlining (validated on concrete inputs every run); concrete dimension list; CrossHair for finite-choice obligations.",
+        "AST->QF_LIA exact binary64 encoding (z3) + CrossHair symbolic execution",
+    )
